@@ -4,9 +4,10 @@
 (* One case per initial state, one verdict line per case:                   *)
 (*     <<"OK", id>>   or   <<"REJECT", id, clause, 0>>                       *)
 (* Case kinds (field k):                                                    *)
-(*   "denotes" tree, strict, q6, expect [, hasden, den]                      *)
+(*   "denotes" tree, top, strict, q6, expect, hasden [, den]                 *)
 (*        the reader must accept the tree and read exactly `expect`          *)
-(*        (abstract document = sequence of grids).                          *)
+(*        (abstract document = sequence of grids); top = "object" | "array"  *)
+(*        | "any" is the required top-level JSON type (one grid / a list).   *)
 (*        C06: tree = json.loads(hszinc.dump(g)), strict reader, q6: the     *)
 (*        emitted decimals are rounded to six places and `expect` is          *)
 (*        Q6(Abs(g)); clauses shape_*, prefix_<kind>, payload_<kind>,         *)
@@ -36,7 +37,8 @@ DocClause(d, e) == IF TZ!DocEq(d, e) THEN "" ELSE "differs_" \o TZ!DiffClause(d,
 
 JudgeDenotes(c) ==
     \E r \in {JRead(c.tree, c.strict)} :
-        IF ~r.ok THEN Verdict(c, r.why)
+        IF (c.top = "object" /\ c.tree[1] # 5) \/ (c.top = "array" /\ c.tree[1] # 4) THEN Verdict(c, "shape_top")
+        ELSE IF ~r.ok THEN Verdict(c, r.why)
         ELSE IF c.hasden /\ r.grids # c.den THEN Verdict(c, "spec_inconsistent")
         ELSE \E g \in {IF c.q6 THEN Q6Doc(r.grids) ELSE r.grids} : Verdict(c, DocClause(g, c.expect))
 
